@@ -80,6 +80,9 @@ Refused(r, act, classes) == r.err \in classes /\ r.ret = 0 /\ act /\ (Sequential
 
 TrCall ==
     /\ Ev("wcall") /\ Keep
+    \* the lifecycle state the code reports after the call (verif accessor; "" when not logged) is the model's
+    \* (not after a failure reported by Flush alone: the model does not follow the Writer there, see AfterFailure)
+    /\ (Trace[l].st # "" /\ ~(failed /\ ws # "error") => ws' = Trace[l].st)
     /\ LET r == Trace[l]
        IN  CASE r.op # "reset" /\ failed -> AfterFailure(r)
              [] r.op = "write" ->
